@@ -199,7 +199,10 @@ class PopulationBalanceModel:
             1) this may remove the last 1 bins (this may be okay since we add new bins once the
                 list bins has at least 1 particle), so the last bin would be 0 anyways
         '''
-        nonzero = len(np.nonzero(self._recordedBins[index])[0])
+        #Number of recorded boundaries = position of the last non-zero one + 1 (rows are zero padded at the end;
+        #    counting the non-zero entries would lose the last class of a grid that starts at 0)
+        nonzero = np.nonzero(self._recordedBins[index])[0]
+        nonzero = 0 if len(nonzero) == 0 else nonzero[-1] + 1
         if nonzero == 0:
             PSDbounds = np.linspace(self.originalMin, self.originalMax, self.originalBins+1)
             PSDsize = 0.5 * (PSDbounds[1:] + PSDbounds[:-1])
